@@ -5,6 +5,7 @@
 import NutsModel.Compose.Dag
 import NutsProofs.Lemmas.C06
 import NutsProofs.Lemmas.C08Inv
+import NutsProofs.Lemmas.C07LiveN
 
 namespace Nuts.Compose.Dag
 open Nuts
@@ -367,5 +368,323 @@ theorem NodeOK.sinv {a : Adm} {cfg8 : C08.Cfg} (G : C08.Good cfg8) {w : Wire} {n
     C08.SInv cfg8 nd.dg ∧ Rel w nd.st.txs nd.dg.disk := by
   rw [h.2, digests_eq_build]
   exact build_chain G w nd.st.txs h.1.inv.chain h.1.small
+
+section ProtoView
+open Nuts.Proto Nuts.Proto.L
+/-! ## the gossip protocol's view (C07) -/
+
+@[simp] theorem viewTx_ref (w : Wire) (env : C06.Env) (t : C06.Tx) : (viewTx w env t).ref = t.ref := rfl
+@[simp] theorem viewTx_clock (w : Wire) (env : C06.Env) (t : C06.Tx) : (viewTx w env t).clock = t.clock := rfl
+@[simp] theorem viewTx_prevs (w : Wire) (env : C06.Env) (t : C06.Tx) : (viewTx w env t).prevs = t.prevs := rfl
+@[simp] theorem viewTx_sigOK (w : Wire) (env : C06.Env) (t : C06.Tx) :
+    (viewTx w env t).sigOK = decide (C06.verifySig env t = .ok ()) := rfl
+
+def viewL (w : Wire) (env : C06.Env) (l : List C06.Tx) : List Proto.Tx := l.map (viewTx w env)
+
+theorem getTx_viewL (w : Wire) (env : C06.Env) (p : Nat) : ∀ (l : List C06.Tx),
+    Proto.getTx (viewL w env l) p = (C06.findTx l p).map (viewTx w env) := by
+  intro l
+  induction l with
+  | nil => rfl
+  | cons a t ih =>
+    unfold Proto.getTx C06.findTx viewL at *
+    simp only [List.map_cons, List.find?]
+    by_cases h : a.ref = p
+    · simp [h]
+    · have hb : (a.ref == p) = false := by simpa using h
+      simp [h, hb, ih]
+
+theorem present_viewL (w : Wire) (env : C06.Env) (r : Nat) (l : List C06.Tx) :
+    Proto.present (viewL w env l) r = decide (r ∈ C06.refsOf l) := by
+  unfold Proto.present viewL C06.refsOf
+  induction l with
+  | nil => simp
+  | cons a t ih =>
+    simp only [List.map_cons, List.any_cons, ih, List.mem_cons]
+    by_cases h : a.ref = r
+    · simp [h]
+    · have : ¬ r = a.ref := fun e => h e.symm
+      simp [h, this]
+
+/-- C06's prev loop and C07's `expectedClock` compute the same maximum -/
+theorem highest_fold (w : Wire) (env : C06.Env) (l : List C06.Tx) : ∀ (ps : List Nat) (h h' : Int),
+    C06.highest l ps h = .ok h' →
+    (ps.filterMap (Proto.getTx (viewL w env l))).foldl Proto.lcStep h.toNat = h'.toNat ∧
+    (ps.filterMap (Proto.getTx (viewL w env l))).length = ps.length := by
+  intro ps
+  induction ps with
+  | nil => intro h h' e; simp [C06.highest] at e; subst e; simp
+  | cons p ps ih =>
+    intro h h' e
+    unfold C06.highest at e
+    split at e
+    · cases e
+    · rename_i t ht
+      have := ih _ h' e
+      simp only [List.filterMap_cons, getTx_viewL, ht, Option.map_some, List.foldl_cons, List.length_cons]
+      refine ⟨?_, by rw [this.2]⟩
+      have hk : Proto.lcStep h.toNat (viewTx w env t) = (if (t.clock : Int) ≥ h then (t.clock : Int) else h).toNat := by
+        unfold Proto.lcStep
+        simp only [viewTx_clock]
+        by_cases h1 : h.toNat < t.clock <;> by_cases h2 : (t.clock : Int) ≥ h <;> simp only [h1, h2, if_true, if_false] <;> omega
+      rw [hk]; exact this.1
+
+theorem expectedClock_view (w : Wire) (env : C06.Env) {l : List C06.Tx} {tx : C06.Tx}
+    (h : C06.verifyPrevs l tx = .ok ()) : tx.clock = Proto.expectedClock (viewL w env l) tx.prevs := by
+  have spec := C06.verifyPrevs_spec h
+  unfold C06.verifyPrevs at h
+  split at h
+  · rename_i hh hk
+    split at h
+    · cases h
+    · rename_i hc
+      obtain ⟨f1, f2⟩ := highest_fold w env l tx.prevs (-1) hh hk
+      unfold Proto.expectedClock
+      cases hps : tx.prevs with
+      | nil => simp; exact spec.2.1 hps
+      | cons p ps =>
+        rw [hps] at f1 f2
+        cases hF : (p :: ps).filterMap (Proto.getTx (viewL w env l)) with
+        | nil => rw [hF] at f2; simp at f2
+        | cons x xs =>
+          simp only
+          rw [← hF]
+          have : Proto.lcOf ((p :: ps).filterMap (Proto.getTx (viewL w env l))) = hh.toNat := f1
+          rw [this]
+          obtain ⟨u, _, _, hu⟩ := spec.2.2 (by rw [hps]; simp)
+          omega
+  · cases h
+  · cases h
+
+/-- **C06's chain invariant is C07's `DagOK`** on the protocol's view of the admitted list -/
+theorem dagOK_view (w : Wire) (env : C06.Env) : ∀ (l : List C06.Tx), C06.ChainOK env l → DagOK (viewL w env l) := by
+  intro l
+  induction l with
+  | nil => intro _; exact DagOK.nil
+  | cons t rest ih =>
+    intro hc
+    obtain ⟨c1, c2, c3, c4, c5⟩ := hc
+    show DagOK (viewTx w env t :: viewL w env rest)
+    refine DagOK.cons _ _ (ih c1) (by simp [c4]) ?_ ?_ ?_ ?_
+    · rw [viewTx_ref, present_viewL]; simpa using c2
+    · intro p hp
+      obtain ⟨u, hu, hr, _⟩ := (C06.verifyPrevs_spec c3).1 p hp
+      rw [present_viewL]
+      simp only [decide_eq_true_eq]
+      unfold C06.refsOf
+      exact List.mem_map.mpr ⟨u, hu, hr⟩
+    · exact expectedClock_view w env c3
+    · intro hp x hx
+      obtain ⟨u, hu, rfl⟩ := List.mem_map.mp hx
+      exact C06.hasRoot_false_iff.mp (c5 hp) u hu
+
+
+
+/-! ### C07's decision of `state.Add` is C06's -/
+
+theorem expectedClock_of_highest (w : Wire) (env : C06.Env) {l : List C06.Tx} {ps : List Nat} {hh : Int}
+    (hk : C06.highest l ps (-1) = .ok hh) : Proto.expectedClock (viewL w env l) ps = (hh + 1).toNat := by
+  obtain ⟨f1, f2⟩ := highest_fold w env l ps (-1) hh hk
+  obtain ⟨s1, s2, _⟩ := C06.highest_spec hk
+  unfold Proto.expectedClock
+  cases hps : ps with
+  | nil => subst hps; simp [C06.highest] at hk; subst hk; rfl
+  | cons p ps' =>
+    rw [hps] at f1 f2
+    cases hF : (p :: ps').filterMap (Proto.getTx (viewL w env l)) with
+    | nil => rw [hF] at f2; simp at f2
+    | cons x xs =>
+      simp only
+      rw [← hF]
+      have : Proto.lcOf ((p :: ps').filterMap (Proto.getTx (viewL w env l))) = hh.toNat := f1
+      rw [this]
+      obtain ⟨u, _, hu⟩ := s2 p (by rw [hps]; exact List.mem_cons_self)
+      omega
+
+theorem verifyPrevs_iff (w : Wire) (env : C06.Env) (l : List C06.Tx) (tx : C06.Tx) :
+    C06.verifyPrevs l tx = .ok () ↔
+      ((∀ p ∈ tx.prevs, Proto.present (viewL w env l) p = true) ∧ tx.clock = Proto.expectedClock (viewL w env l) tx.prevs) := by
+  constructor
+  · intro h
+    refine ⟨?_, expectedClock_view w env h⟩
+    intro p hp
+    obtain ⟨u, hu, hr, _⟩ := (C06.verifyPrevs_spec h).1 p hp
+    rw [present_viewL]
+    simp only [decide_eq_true_eq]
+    unfold C06.refsOf
+    exact List.mem_map.mpr ⟨u, hu, hr⟩
+  · rintro ⟨h1, h2⟩
+    have hall : ∀ p ∈ tx.prevs, ∃ u, C06.findTx l p = some u := by
+      intro p hp
+      have := h1 p hp
+      rw [present_viewL] at this
+      simp only [decide_eq_true_eq] at this
+      have := C06.findTx_isSome_iff.mpr this
+      exact Option.isSome_iff_exists.mp this
+    obtain ⟨hh, hk⟩ := C06.highest_total (-1) hall
+    have he := expectedClock_of_highest w env hk
+    have hge := (C06.highest_spec hk).1
+    unfold C06.verifyPrevs
+    rw [hk]
+    have : ¬ ((tx.clock : Int) ≠ hh + 1) := by omega
+    simp [this]
+
+/-- **The two models of `state.Add`'s decision agree.** C07's `addCheck` on the protocol's view says `added` exactly when
+    C06's `add` stores the transaction. -/
+theorem addCheck_added_iff (w : Wire) (env : C06.Env) (subs : List C06.Sub) (s : C06.St) (tx : C06.Tx) (p : Option Nat) :
+    Proto.addCheck (viewL w env s.txs) (viewTx w env tx) (p.map (viewPayload env.sha)) = .added ↔
+      (C06.add env subs s tx p).1.txs = tx :: s.txs := by
+  constructor
+  · intro h
+    obtain ⟨a1, a2, a3, a4, a5, a6⟩ := addCheck_added h
+    simp only [viewTx_sigOK, decide_eq_true_eq] at a1
+    rw [viewTx_ref, present_viewL] at a2
+    simp only [decide_eq_false_iff_not] at a2
+    have hv := (verifyPrevs_iff w env s.txs tx).mpr ⟨a3, a4⟩
+    refine (C06.add_success a2 hv a1 ?_ ?_).2
+    · intro hp
+      apply C06.hasRoot_false_iff.mpr
+      intro t ht
+      exact a5 hp (viewTx w env t) (List.mem_map.mpr ⟨t, ht, rfl⟩)
+    · intro x hx
+      have := a6 (viewPayload env.sha x) (by rw [hx]; rfl)
+      exact this
+  · intro h
+    rcases @C06.add_cases env subs s tx p with e | ⟨_, ha⟩
+    · rw [e] at h
+      have := congrArg List.length h
+      simp at this
+    · have hv := (verifyPrevs_iff w env s.txs tx).mp ha.prevsOK
+      unfold Proto.addCheck
+      have h1 : Proto.present (viewL w env s.txs) (viewTx w env tx).ref = false := by
+        rw [viewTx_ref, present_viewL]; simpa using ha.fresh
+      have h2 : (viewTx w env tx).prevs.all (Proto.present (viewL w env s.txs)) = true := by
+        rw [List.all_eq_true]; exact hv.1
+      have h3 : ((viewTx w env tx).clock != Proto.expectedClock (viewL w env s.txs) (viewTx w env tx).prevs) = false := by
+        simp only [viewTx_clock, viewTx_prevs]; rw [← hv.2]; simp
+      have h4 : (viewTx w env tx).sigOK = true := by simp [ha.sigOK]
+      have h5 : Proto.payloadMismatch (p.map (viewPayload env.sha)) (viewTx w env tx) = false := by
+        unfold Proto.payloadMismatch
+        cases p with
+        | none => rfl
+        | some q =>
+          have := ha.payloadOK q rfl
+          simp only [Option.map_some]
+          show ((viewPayload env.sha q).sha != tx.payloadHash) = false
+          show (env.sha q != tx.payloadHash) = false
+          simp [this]
+      have h6 : ((viewTx w env tx).prevs.isEmpty && (viewL w env s.txs).any (fun t => t.clock == 0)) = false := by
+        cases hp : tx.prevs with
+        | cons a b => simp [hp]
+        | nil =>
+          have := C06.hasRoot_false_iff.mp (ha.rootOK hp)
+          simp only [viewTx_prevs, hp, List.isEmpty_nil, Bool.true_and]
+          rw [List.any_eq_false]
+          intro x hx
+          obtain ⟨u, hu, rfl⟩ := List.mem_map.mp hx
+          simpa using this u hu
+      simp only [h1, h2, h3, h4, h5, h6, Bool.not_true, Bool.false_eq_true, if_false]
+
+/-! ### the digests the protocol exchanges -/
+
+theorem xorOf_view_fold (w : Wire) (env : C06.Env) : ∀ (l : List C06.Tx) (a : Nat),
+    (viewL w env l).foldl Proto.xorStep a = a ^^^ C06.xorAll l := by
+  intro l
+  induction l with
+  | nil => intro a; simp [viewL, C06.xorAll]
+  | cons t r ih =>
+    intro a
+    show (viewL w env r).foldl Proto.xorStep (Proto.xorStep a (viewTx w env t)) = _
+    rw [ih]
+    simp only [Proto.xorStep, viewTx_ref, C06.xorAll]
+    rw [Nat.xor_assoc, Nat.xor_comm t.ref]
+
+theorem xorOf_view (w : Wire) (env : C06.Env) (l : List C06.Tx) : Proto.xorOf (viewL w env l) = C06.xorAll l := by
+  unfold Proto.xorOf
+  rw [xorOf_view_fold]; simp
+
+theorem specAll_xor_embList (w : Wire) : ∀ (l : List C06.Tx),
+    C08.specAll C08.xorOps (C08.refClocks (embList w l)) = embRef (C06.xorAll l) := by
+  intro l
+  induction l with
+  | nil => rfl
+  | cons t r ih =>
+    rw [embList_cons, C08.refClocks_snoc, C08.specAll_snoc, ih]
+    simp only [C06.xorAll, embRef, BitVec.ofNat_xor]
+    rfl
+
+theorem lcOf_view_fold (w : Wire) (env : C06.Env) : ∀ (l : List C06.Tx) (a : Nat),
+    (viewL w env l).foldl Proto.lcStep a = max a (C06.maxClock l) := by
+  intro l
+  induction l with
+  | nil => intro a; simp [viewL, C06.maxClock]
+  | cons t r ih =>
+    intro a
+    show (viewL w env r).foldl Proto.lcStep (Proto.lcStep a (viewTx w env t)) = _
+    rw [ih]
+    simp only [Proto.lcStep, viewTx_clock, C06.maxClock]
+    by_cases hlt : a < t.clock <;> simp only [hlt, if_true, if_false] <;> omega
+
+theorem lcOf_view (w : Wire) (env : C06.Env) (l : List C06.Tx) : Proto.lcOf (viewL w env l) = C06.maxClock l := by
+  unfold Proto.lcOf
+  rw [lcOf_view_fold]; simp
+
+theorem maxClock_embList (w : Wire) : ∀ (l : List C06.Tx), C08.maxClock (embList w l) = C06.maxClock l := by
+  intro l
+  induction l with
+  | nil => rfl
+  | cons t r ih =>
+    rw [embList_cons, C08.maxClock_snoc, ih]
+    simp only [C06.maxClock, embTx_clock]
+    omega
+
+
+
+theorem specUpTo_snoc {R G : Type} (o : C08.Ops R G) (ls : Nat) (l : List (R × Nat)) (rc : R × Nat) (c : Nat) :
+    C08.specUpTo o ls (l ++ [rc]) c =
+      if rc.2 / ls ≤ c / ls then o.ins (C08.specUpTo o ls l c) rc.1 else C08.specUpTo o ls l c := by
+  unfold C08.specUpTo
+  rw [List.filter_append]
+  by_cases h : rc.2 / ls ≤ c / ls
+  · simp [h, C08.specAll_snoc]
+  · simp [h]
+
+/-- the IBLT C08 returns for a clock is the IBLT of exactly the ref set C07 abstracts `State.IBLT(lc)` as -/
+theorem iblt_of_ibltSet (n : Nat) (w : Wire) (env : C06.Env) (cfg7 : Proto.Cfg) (c : Nat) : ∀ (l : List C06.Tx),
+    C08.specUpTo (C08.ibltOps n) cfg7.pageSize (C08.keyClocks (embList w l)) c =
+      ibltOfSet n w (Proto.ibltSet cfg7 (viewL w env l) c) := by
+  intro l
+  induction l with
+  | nil => rfl
+  | cons t r ih =>
+    rw [embList_cons, C08.keyClocks_snoc, specUpTo_snoc, ih]
+    simp only [embTx_clock, embTx_ikey, Proto.ibltSet, viewL, List.map_cons, List.filter_cons, viewTx_clock, Proto.pageOf]
+    by_cases h : t.clock / cfg7.pageSize ≤ c / cfg7.pageSize
+    · simp [h, ibltOfSet]
+    · simp [h]
+
+theorem skeleton_view (w : Wire) (env : C06.Env) {l : List C06.Tx} {s : C08.State n} (R : Rel w l s.disk)
+    (hp : ∀ t ∈ l, ∀ p ∈ t.prevs, Small p) :
+    (viewOfDigests s).map skeleton = (viewL w env l).map skeleton := by
+  unfold viewOfDigests viewL
+  rw [R.txs, embList, ← List.map_reverse, List.reverse_reverse, List.map_map, List.map_map, List.map_map]
+  apply List.map_congr_left
+  intro t ht
+  simp only [Function.comp, skeleton, embTx_ref, embTx_clock, embTx_prevs, viewTx_ref, viewTx_clock, viewTx_prevs]
+  rw [embRef_toNat (R.small t ht), List.map_map]
+  congr 2
+  have : ∀ (ps : List Nat), (∀ p ∈ ps, Small p) → ps.map ((fun x : C08.Ref => x.toNat) ∘ embRef) = ps := by
+    intro ps
+    induction ps with
+    | nil => intro _; rfl
+    | cons a b ih =>
+      intro h
+      simp only [List.map_cons, Function.comp]
+      rw [embRef_toNat (h a List.mem_cons_self)]
+      congr 1
+      exact ih (fun p hp => h p (List.mem_cons_of_mem _ hp))
+  exact this t.prevs (hp t ht)
+
+end ProtoView
 
 end Nuts.Compose.Dag
